@@ -219,7 +219,7 @@ def check(case, ctx):
     monitors.TRAP.reset()
     ftype = graphtage.FILETYPES_BY_TYPENAME[f]
     try:
-        data = formats.write(f, case["doc"])
+        data = formats.write(f, case["doc"], dialects=f != "xml")
     except Exception:
         if ctx is not None:
             ctx.count("dropped:reference-writer-rejects")
